@@ -103,6 +103,9 @@ class InputThreadManager():
 
                 msg.rstrip()
 
+                # the refused request must not get the input
+                self._input_stack.pop()
+
                 raise KeyError("Can't run multiple input threads at the same time!\n"
                                "Asking for input:\n"
                                "{}".format(msg))
